@@ -276,7 +276,8 @@ def run(prog, rep):
                        "self.obj.itersections(recursive=True) validate(section) and validate(each of section.properties)")
     rv = vcls.lookup_method("run_validation")
     me = rv.params[0]
-    vcalls = [e for e in effect_calls(prog, rv, lambda c: True) if unparse(e.call.func) == "%s.validate" % me and len(e.call.args) == 1]
+    vcalls = [e for e in effect_calls(prog, rv, lambda c: isinstance(c.func, ast.Attribute) and c.func.attr == "validate")
+              if unparse(e.call.func) == "%s.validate" % me and len(e.call.args) == 1]
     targets = [unparse(e.call.args[0]) for e in vcalls]
     secs = [t for t in targets if re.match(r"^EACH\(%s\.obj\.itersections\((.*)\)\)$" % re.escape(me), t)]
     ok = len(secs) == 1
@@ -294,7 +295,8 @@ def run(prog, rep):
               "the validated object itself is not validated on every path", rv.where)
     val = vcls.lookup_method("validate")
     vme, vobj = val.params[0], val.params[1]
-    recs = [unparse(e.call) for e in effect_calls(prog, val, lambda c: True) if unparse(e.call.func) == "%s.error" % vme]
+    recs = [unparse(e.call) for e in effect_calls(prog, val, lambda c: isinstance(c.func, ast.Attribute) and c.func.attr == "error")
+            if unparse(e.call.func) == "%s.error" % vme]
     want = "%s.error(EACH(EACH(%s._handlers.get(%s.format().name, []))(%s)))" % (vme, vme, vobj, vobj)
     rep.check(want in recs, "WALK-2", "validate() runs the handlers of the object's kind", "ok",
               "validate() no longer selects handlers by obj.format().name and records what they yield: %s" % recs, val.where)
